@@ -2,6 +2,7 @@ package sim
 
 import (
 	"fmt"
+	"strings"
 	"time"
 )
 
@@ -261,10 +262,15 @@ func checkC05(v *tunView, m *connModel) {
 		}
 		return false
 	}
+	// failed Sends - for the known history only those that waited out their response timeout (or
+	// could not write): a Send that gives up early for no reason is another matter
 	failed := map[int]bool{}
 	for _, s := range r.h.Sends {
 		if s.Done && !s.OK {
-			failed[s.ID] = true
+			rq, sent := reqOf[s.ID]
+			if !sent || s.Ret.T-rq.at.T >= c.T-v.eps || strings.Contains(s.Err, "write ") || strings.Contains(s.Err, "terminated") || strings.Contains(s.Err, "rejected") {
+				failed[s.ID] = true
+			}
 		}
 	}
 	last := -1
